@@ -149,7 +149,9 @@ def encode_utf8(s):
 
 def format_int(v, spec=''):
     if spec not in ('', 'd'):
-        eng().fail(Unsupported, f'format spec {spec!r} on symbolic int')
+        # any other format (padding, radix, sign ...): the value is enumerated (one path per value; bounded), the text is then real
+        val = eng().concretize(v.t, limit=300, what=f'integer formatted with {spec!r}')
+        return format(val, spec)
     r = _reg()
     neg = eng().decide(v.t < 0)
     t = z3.simplify(-v.t if neg else v.t)
